@@ -30,9 +30,9 @@ class C10Base(c09.Machine):
     def point_mutation(self, p):
         self._apply({"op": "point_mutation", "point": p})
 
-    @rule(data=st.data(), p=c09.any_point())
-    def probe(self, data, p):
-        self._apply({"op": "probe", "i": self._idx(data), "point": p})
+    @rule(data=st.data(), p=c09.any_point(), bare=st.booleans())
+    def probe(self, data, p, bare):
+        self._apply({"op": "probe", "i": self._idx(data), "point": p, "bare": bare})
 
     def teardown(self):
         st_ = self.stats
